@@ -640,6 +640,26 @@ func c19LiteralsFor(id string) []string {
 	return c19Literals
 }
 
+// runEach executes the statements of a template one at a time, the way the interactive shell does: an error ends
+// only the statement that raised it, so the statements after it are reached too. Every statement is judged; the
+// first error (or panic) is returned for the classification of the case.
+func (r *c19Runner) runEach(cs *c19Case, st []parser.Statement, userCode bool) (views []*query.View, err error, pnc any) {
+	for i := range st {
+		v, e, p := r.run(st[i : i+1])
+		views = append(views, v...)
+		if i > 0 && (e != nil || p != nil) {
+			r.judge(cs, "statement", e, p, userCode)
+		}
+		if err == nil && pnc == nil {
+			err, pnc = e, p
+		}
+		if p != nil {
+			break // the process image is not to be trusted after a panic
+		}
+	}
+	return
+}
+
 func (r *c19Runner) execClause(cs *c19Case) {
 	c := r.c
 	tpl, ok := c19TplByID(cs.Tpl)
@@ -680,7 +700,9 @@ func (r *c19Runner) execClause(cs *c19Case) {
 			c.Incomplete(fmt.Sprintf("harness fault: template %s does not parse: %v", tpl.id, perr))
 			return
 		}
-		views, err, pnc = r.run(st)
+		views, err, pnc = r.runEach(cs, st, tpl.userCode)
+	} else if st, _, perr := parser.Parse(sql, "", false, false); perr == nil {
+		views, err, pnc = r.runEach(cs, st, tpl.userCode)
 	} else {
 		views, err, pnc = r.runText(sql)
 	}
